@@ -2,6 +2,7 @@
 use crate::engine::Prop;
 
 pub mod c02_c13;
+pub mod c16;
 pub mod consist_lab;
 pub mod pt_props;
 pub mod ptlab;
@@ -14,6 +15,7 @@ pub fn get(id: &str) -> Option<Box<dyn Prop>> {
         "C08" => Some(Box::new(pt_props::PtProp { which: "C08" })),
         "C09" => Some(Box::new(pt_props::PtProp { which: "C09" })),
         "C10" => Some(Box::new(pt_props::C10)),
+        "C16" => Some(Box::new(c16::C16)),
         _ => None,
     }
 }
